@@ -6,7 +6,8 @@ GUARD = -DHEIKOSTAMER_LIBTMCG_VERIF
 COMMON = -g -w -pthread -DHAVE_CONFIG_H -I$(REPO) -I$(REPO)/src -I/repo $(GUARD)
 FLAGS_plain = -O2
 FLAGS_asan  = -O1 -fsanitize=address,undefined -fno-sanitize-recover=undefined -fno-omit-frame-pointer
-FLAGS_tiny  = -O2 -DTMCG_KEY_NIZK_STAGE1=4 -DTMCG_KEY_NIZK_STAGE2=8 -DTMCG_KEY_NIZK_STAGE3=8
+# /repo/libTMCG_config.h defines the NIZK stage counts unconditionally, so the tiny flavour compiles against a patched copy
+FLAGS_tiny  = -O2 -UHAVE_CONFIG_H -include $(B)/tiny/cfg/libTMCG_config.h
 CXX = g++
 CXXF = $(COMMON) $(FLAGS_$(F))
 LIBS = -lgcrypt -lgmp -lgpg-error -ldl
@@ -27,17 +28,25 @@ setup:
 	$(MAKE) F=plain lib
 	$(MAKE) F=asan lib
 
-$(B)/$(F)/lib/%.o: $(REPO)/src/%.cc
+CFGDEP_plain =
+CFGDEP_asan =
+CFGDEP_tiny = $(B)/tiny/cfg/libTMCG_config.h
+
+$(B)/tiny/cfg/libTMCG_config.h: $(firstword $(wildcard $(REPO)/libTMCG_config.h /repo/libTMCG_config.h))
+	@mkdir -p $(dir $@)
+	@sed -E 's/^#define TMCG_KEY_NIZK_STAGE1 .*/#define TMCG_KEY_NIZK_STAGE1 4/; s/^#define TMCG_KEY_NIZK_STAGE2 .*/#define TMCG_KEY_NIZK_STAGE2 8/; s/^#define TMCG_KEY_NIZK_STAGE3 .*/#define TMCG_KEY_NIZK_STAGE3 8/' $< > $@
+
+$(B)/$(F)/lib/%.o: $(REPO)/src/%.cc $(CFGDEP_$(F))
 	@mkdir -p $(dir $@)
 	@echo CXX $<
 	@$(CXX) $(CXXF) -MMD -MP -c $< -o $@
 
-$(B)/$(F)/mc/%.o: mc/%.cc
+$(B)/$(F)/mc/%.o: mc/%.cc $(CFGDEP_$(F))
 	@mkdir -p $(dir $@)
 	@echo CXX $<
 	@$(CXX) $(CXXF) -fno-access-control -Imc -MMD -MP -c $< -o $@
 
-$(B)/$(F)/drv/%.o: drivers/%.cc
+$(B)/$(F)/drv/%.o: drivers/%.cc $(CFGDEP_$(F))
 	@mkdir -p $(dir $@)
 	@echo CXX $<
 	@$(CXX) $(CXXF) -fno-access-control -Imc -I. -MMD -MP -c $< -o $@
